@@ -113,6 +113,9 @@ def rule_never_early(chk, prefix="C09"):
         loop_ok = any(lab.startswith("loop:") and unparse(e) == "%s.children" % nparam for e, lab, t in sl) or \
             any(("all(" in t and "_completed" in t and "%s.children" % nparam in t) for t, _ in texts)
         member_ok = any("_completed" in t and ("not in" in t or " in " in t) for t, _ in texts)
+        wa_ok = any("isinstance(" in t and "WrittenAction)" in t and "WrittenMessage" not in t for t, _ in texts)
+        if loop_ok and member_ok and not wa_ok:
+            problems.append("completeness of child ACTIONS (the membership test is not restricted to isinstance(child, WrittenAction))")
         if not (loop_ok and member_ok):
             problems.append("completeness of every child action (loop over all children / membership in the completed set)")
         chk.req(not problems, "%s.never-early" % prefix, "Task._insert_action:completion-depends-on-all-four", chk.where(f, cn.lineno),
@@ -311,6 +314,15 @@ def rule_add_dispatch(chk):
             and all(cfg.edge_dominates(t, "false" if eq else "true", n) for n, c, m in ec)
     chk.req(oks, "C09.dispatch", "Task.add:start-vs-end-by-status", chk.where(f), good="status == %r -> _start, otherwise _end" % ST,
             fail="Task.add does not route start/end messages by action_status == %r" % ST)
+    # a message with no enclosing action is its own task only at level [1]
+    oksp = False
+    for t in cfg.live:
+        if t.kind == "test" and isinstance(t.exprs[0], ast.Compare) and isinstance(t.exprs[0].ops[0], ast.Eq):
+            r_ = t.exprs[0].comparators[0]
+            if isinstance(r_, ast.List) and len(r_.elts) == 1 and isinstance(r_.elts[0], ast.Constant) and r_.elts[0].value == 1 and "task_level" in unparse(t.exprs[0].left):
+                oksp = True
+    chk.req(oksp, "C09.dispatch", "Task.add:context-less-message-only-at-level-[1]", chk.where(f), good="a message is a whole task only when its level is [1]",
+            fail="Task.add no longer restricts the single-message task to level [1]")
     ins = ctx.calls_to(f, ia) + ctx.calls_to(f, enp)
     okr = all(any(c is r.ast.value or r.ast.value is not None for r in common.returns_of(cfg)) for n, c, m in ins)
     rets = common.returns_of(cfg)
